@@ -2062,8 +2062,15 @@ impl KyroDbService for KyroDBServiceImpl {
         let engine = &self.state.engine;
 
         // Fetch metadata first to enforce tenant/namespace checks without
-        // revealing existence via embedding lookup timing.
-        let internal_metadata = engine.get_metadata(global_doc_id).unwrap_or_default();
+        // revealing existence via embedding lookup timing. The vector returned with it
+        // comes from the SAME canonical read: pairing this metadata with an embedding
+        // fetched later returns the vector of one write with the metadata of another
+        // when an overwrite lands in between.
+        let (canonical_embedding, internal_metadata) =
+            match engine.get_document_with_metadata(global_doc_id) {
+                Some((embedding, metadata)) => (Some(embedding), metadata),
+                None => (None, HashMap::new()),
+            };
 
         if let Some(tenant) = &tenant {
             let expected = tenant.tenant_index.to_string();
@@ -2101,7 +2108,12 @@ impl KyroDbService for KyroDBServiceImpl {
         }
 
         let start = Instant::now();
-        match engine.query_with_source(global_doc_id, None) {
+        // `query_with_source` keeps the tier accounting and cache admission of the point
+        // path; the payload is the pair read above.
+        let lookup = engine
+            .query_with_source(global_doc_id, None)
+            .and_then(|(_, served_from)| canonical_embedding.map(|e| (e, served_from)));
+        match lookup {
             Some((embedding, served_from)) => {
                 let latency_ns = start.elapsed().as_nanos() as u64;
                 let latency_ms = latency_ns as f64 / 1_000_000.0;
